@@ -70,7 +70,7 @@ class C15(Check):
             yield {"kind": "hist", "i": i, "seed": seed,
                    "clock": ["real", "coarse", "backwards", "frozen", "stepback"][i % 5]}
         for stored in ("lead", "nolead"):
-            for spelled in ("same", "lead", "nolead", "bare_string"):
+            for spelled in ("same", "lead", "nolead", "bare_string", "two_calls"):
                 for registered in (1, 2):
                     yield {"kind": "delete_spelling", "stored": stored, "delete": spelled, "registered": registered}
         nmax = 4 if tier == "quick" else 5
@@ -117,9 +117,15 @@ class C15(Check):
                     res.count("double_registrations")
                 before = h.last_view.current()
                 norm = reader.norm(stored)
-                victim = {"same": stored, "lead": "/" + norm, "nolead": norm, "bare_string": stored}[case["delete"]]
+                victim = {"same": stored, "lead": "/" + norm, "nolead": norm, "bare_string": stored, "two_calls": stored}[case["delete"]]
+                second = None
+                if case["delete"] == "two_calls":
+                    # one transaction, TWO delete_files() calls: both named files must go
+                    second = next(f for f in before.files if f != norm)
                 try:
                     with h.table.new_transaction() as tx:
+                        if second is not None:
+                            tx.delete_files(["/" + second])
                         # bare_string: the path itself instead of a list of paths (a str iterates its characters)
                         tx.delete_files(victim if case["delete"] == "bare_string" else [victim])
                         tx.commit()
@@ -136,7 +142,7 @@ class C15(Check):
                 res.count("deletes_checked")
                 res.key(["delete_spelling", case["stored"], case["delete"], case.get("registered", 1)])
                 after = set(tv.current().files)
-                want = set(before.files) - {norm}
+                want = set(before.files) - {norm} - ({second} if second else set())
                 if after != want:
                     res.violation(f"delete-not-exact:stored-{case['stored']}:request-{case['delete']}" + (":registered-twice" if case.get("registered", 1) == 2 else ""),
                                   f"delete_files([{victim!r}]) on an entry stored as {stored!r} left {sorted(after)}, expected {sorted(want)}",
